@@ -137,6 +137,12 @@ func (r *PlainRanger) Range() (reflect.Value, reflect.Value, bool) {
 }
 func (r *PlainRanger) ProvidesIndex() bool { return false }
 
+// ZeroErr is an error (and a fmt.Stringer) without any state: every value of it is the zero value.
+type ZeroErr struct{}
+
+func (ZeroErr) Error() string  { return "zero-err" }
+func (ZeroErr) String() string { return "zero-err" }
+
 // PanicStringer is a fmt.Stringer whose String method fails.
 type PanicStringer struct{}
 
@@ -442,6 +448,12 @@ func Build(r Recipe) interface{} {
 		return r.S
 	case "reflect-value": // a reflect.Value as a value (helpers for templates that want Kind() / Len() hand such things around)
 		return reflect.ValueOf([]int{1, 2})
+	case "err-holder": // slots of interface types with methods holding values that are the zero value of their type
+		return struct {
+			Err   error
+			Note  fmt.Stringer
+			NoErr error
+		}{Err: ZeroErr{}, Note: ZeroErr{}}
 	case "panic-stringer":
 		return PanicStringer{}
 	case "nil-ifaces": // slots of interface types that have methods, with nothing in them
